@@ -530,6 +530,15 @@ impl World {
                 drop(var);
                 self.model.vars[*v].handle_alive = false;
             }
+            Action::Dot => {
+                let text = self.st().weak().save_dot_to_string();
+                if !text.starts_with("digraph") {
+                    self.violate("C04", "save_dot_to_string produced no graph".into());
+                }
+            }
+            Action::OnUpdate(n) => {
+                on_update(&self.handle(*n), *n, &self.sh);
+            }
             Action::Stabilise => self.stabilise_once(),
             Action::StabiliseUntilStable => {
                 for i in 0..25 {
@@ -876,6 +885,27 @@ impl World {
                 }
                 Event::DisallowBy { obs, .. } => {
                     disallowed_in_batch.insert(*obs);
+                }
+                Event::NodeUpdate { node, kind, value } => {
+                    handlers_started = true;
+                    if !pend_applied {
+                        pend_applied = true;
+                        for v in self.model.vars.iter_mut() {
+                            if let Some(p) = v.pending.take() {
+                                v.cur = p;
+                                v.written = true;
+                                v.dirty = 1;
+                            }
+                        }
+                    }
+                    if let Some(v) = value {
+                        if self.cfg.compare_values && !self.lossy && refs[*node] != Some(*v) {
+                            problems.push(("C09", format!("node-level update handler on n{node} was given {:?} in round {k}, the node's fully propagated value is {:?}", v, refs[*node])));
+                        }
+                    }
+                    if *kind == 2 && refs[*node].is_some() {
+                        problems.push(("C03", format!("node-level update handler on n{node} was told Invalidated in round {k} but the node is valid")));
+                    }
                 }
                 Event::VarDropped { var, .. } => {
                     self.model.vars[*var].handle_alive = false;
